@@ -102,8 +102,9 @@ def evaluate(cfg):
     c0 = np.array(shells[0].center)
     cl = np.array(shells[-1].center)
     pts = np.array([c0, cl, (c0 + cl) / 2 + 1e-3, c0 + np.array(hvec("pos-q", 3, -1, 1)), c0 + np.array([0, 0, 40.0]),
-                    c0 + np.array([3e-8, 0, 0])])
-    q = np.array([1.0, 0.1, 7.0, 100.0, 3.0, 2.0])
+                    c0 + np.array([3e-8, 0, 0]), (c0 + cl) / 2 + np.array([0.0, 0.4, -0.3])])
+    # the last charge is tiny (1e-8): its matrix is 1e-8 times smaller but just as negative semi-definite
+    q = np.array([1.0, 0.1, 7.0, 100.0, 3.0, 2.0, 1e-8])
     V = point_charge_integral(g, pts, q)
     o.call()
     for k in range(len(q)):
